@@ -2,6 +2,7 @@
 package main
 
 import (
+	"runtime/debug"
 	"runtime/pprof"
 	"flag"
 	"fmt"
@@ -43,9 +44,20 @@ func main() {
 	}
 	r := report.New(*prop, *tier, seed, p.Level)
 	ctx := &props.Ctx{R: r, Tier: *tier, Seed: seed, Replay: *replay, Thorough: *tier == "thorough"}
+	// a panic that reaches this frame came out of the code under check through a call the check did not guard (the harness
+	// itself does not panic on the unchanged tree): it is a verdict about the tree, not a reason to die without one
+	guarded := func() {
+		defer func() {
+			if e := recover(); e != nil {
+				r.Violate("panic-while-checking", "unguarded call into the code under check", fmt.Sprintf("%v\n%s", e, debug.Stack()), nil)
+				r.NotExhaustive("the check was ended by a panic; what follows the panicking call was not run")
+			}
+		}()
+		p.Run(ctx)
+	}
 	if *shard >= 0 {
 		ctx.Shard, ctx.NShards = *shard, *nshards
-		p.Run(ctx)
+		guarded()
 		if err := r.WritePartial(*partial); err != nil {
 			fmt.Fprintln(os.Stderr, err)
 			os.Exit(2)
@@ -53,6 +65,6 @@ func main() {
 		pprof.StopCPUProfile()
 		os.Exit(0)
 	}
-	p.Run(ctx)
+	guarded()
 	os.Exit(r.Finish())
 }
